@@ -2406,7 +2406,9 @@ func (t *Terminal) printPrompt() {
 
 	before, after := t.updatePromptOffset()
 	if len(before) == 0 && len(after) == 0 && len(t.ghost) > 0 {
-		w.CPrint(tui.ColInput.WithAttr(tui.Dim), t.ghost)
+		// Like the query, the ghost text is limited to the input area
+		ghost, _ := t.trimRight([]rune(t.ghost), util.Max(1, w.Width()-t.promptLen-1))
+		w.CPrint(tui.ColInput.WithAttr(tui.Dim), string(ghost))
 		return
 	}
 
